@@ -76,6 +76,8 @@ func TestC06(t *testing.T) {
 	p.Inject = true
 	p.MaxVals = 6
 	p.BlockGasBoundary = true
+	p.Alt, p.PAlt = gasGovProfile(), 30
+	p.Alt.Inject = true
 	runCheck(t, "C06", p, func(src Source, st *Stats) *Outcome {
 		c, err := RunPrimary("C06", src, nil)
 		out := &Outcome{Case: c}
@@ -137,6 +139,7 @@ func TestC06(t *testing.T) {
 			st.label("checktx_ok_inside_block:"+txTypeName(ty), n)
 			inside += n
 		}
+		st.label("check_between_endblock_and_commit_of_param_change", c.W.Feat["check_between_endblock_and_commit_of_param_change"])
 		armed := len(c.Hist.Genesis.Validators) >= 3
 		if armed {
 			st.label("histories_with_limiter_armed", 1)
